@@ -129,7 +129,8 @@ impl PreOp {
                     p.own_slot = slot_of(hf.node);
                     p.file_off = hf.off;
                     p.file_node = Some(hf.node);
-                    p.may_write_on_error = true;
+                    // a write through a read-only handle is a refusal: it must not touch the medium
+                    p.may_write_on_error = !(matches!(op, Op::Write { .. }) && !hf.writable);
                 }
             }
             Op::OpenFile { ds, name, mode, .. } => {
@@ -652,6 +653,16 @@ pub fn medium_vs_model(e: &mut Engine, vi: usize, with_library: bool) {
         }
         let r = &x.slot.raw;
         let rd = |o: usize| u16::from_le_bytes([r[o], r[o + 1]]);
+        if n.pre_existing {
+            // a creation time never changes after creation - also for files the history rewrote
+            if let Some(o) = e.initial.iter().find(|o| o.mvol == mvol && !o.opaque && o.path == path) {
+                if r[14..18] != o.raw[14..18] {
+                    let msg = format!("{}: creation time bytes {:02x?} differ from the formatter's {:02x?}", path, &r[14..18], &o.raw[14..18]);
+                    e.violate("C02", "C02.ctime", "creation time of a pre-existing file", msg);
+                    return;
+                }
+            }
+        }
         if !n.pre_existing {
             if !ts_ok(&n.ctime_ok, rd(16), rd(14)) {
                 e.violate("C02", "C02.ctime", "creation time", format!("{}: creation time on the medium {:?} is not the clock value of the creating call {:?}", path, fsx::ts_from_fat(rd(16), rd(14)), n.ctime_ok.iter().map(fsx::ts_tuple).collect::<Vec<_>>()));
